@@ -5,7 +5,7 @@
    Print Assumptions.  An encoder result [Some bs] is the bytes written;
    [None] would be an expansion reaching undefined behaviour (external
    width outside 1..8) — the theorems show it never happens. *)
-Require Import VV.Base VV.Split VV.SplitSpec VV.SplitProofs VV.Split16Proofs VV.SplitConsts.
+Require Import VV.Base VV.Split VV.SplitSpec VV.SplitProofs VV.Split16Proofs VV.SplitConsts VV.SplitDefined.
 Local Open Scope N_scope.
 
 (* ---- Split ---- *)
@@ -96,6 +96,30 @@ Theorem C01_split16_put_frame : forall x dst off bs i, x < 18446744073709551616 
   nth i (store dst off bs) 0 = nth i dst 0.
 Proof. exact split16_put_frame. Qed.
 Print Assumptions C01_split16_put_frame.
+
+(* ---- where the decoders are undefined ---- *)
+(* The decoder models return None exactly when the expansion reaches
+   varintExternalGet with a width outside 1..8 (assert(NULL) +
+   __builtin_unreachable in the C): type bytes 10wwwwww with w = 0 or w > 8
+   for Split, 11xxwwww with w = 0 or w > 8 for SplitFull16.  These are the
+   type bytes the C driver reports instead of executing. *)
+Theorem C01_split_get_undefined_iff : forall z p, byte_atz z p < 256 ->
+  (split_get_at z p = None <->
+   ((byte_atz z p / 64 =? 2) && ((byte_atz z p mod 64 <? 1) || (8 <? byte_atz z p mod 64))) = true).
+Proof. exact split_get_undefined_iff. Qed.
+Print Assumptions C01_split_get_undefined_iff.
+
+Theorem C01_split_rev_get_undefined_iff : forall z p, byte_atz z p < 256 ->
+  (split_rev_get_at z p = None <->
+   ((byte_atz z p / 64 =? 2) && ((byte_atz z p mod 64 <? 1) || (8 <? byte_atz z p mod 64))) = true).
+Proof. exact split_rev_get_undefined_iff. Qed.
+Print Assumptions C01_split_rev_get_undefined_iff.
+
+Theorem C01_split16_get_undefined_iff : forall z p, byte_atz z p < 256 ->
+  (split16_get_at z p = None <->
+   ((byte_atz z p / 64 =? 3) && ((byte_atz z p mod 16 <? 1) || (8 <? byte_atz z p mod 16))) = true).
+Proof. exact split16_get_undefined_iff. Qed.
+Print Assumptions C01_split16_get_undefined_iff.
 
 (* non-vacuity: concrete instances on both sides of a level boundary *)
 Example C01_split_example :
